@@ -102,8 +102,6 @@ func refPointLite(seed uint64) *big.Int {
 	return x
 }
 
-var c17Shared gfr.Element
-
 var halfPc17 = new(big.Int).Rsh(new(big.Int).Sub(ref.P, big.NewInt(1)), 1)
 
 func evalC17(c c17Case, rec *hx.Rec) error {
@@ -138,9 +136,12 @@ func evalC17(c c17Case, rec *hx.Rec) error {
 	} else {
 		var pt *bandersnatch.PointAffine
 		arg := &fe
-		if c.Seed%2 == 0 { // the caller reuses one variable for successive abscissas
-			c17Shared = fe
-			arg = &c17Shared
+		if c.Seed%2 == 0 { // the caller reuses one variable for successive abscissas: first another one, then this one
+			var shared gfr.Element
+			shared.SetBigInt(refPointLite(c.Seed + 1))
+			_ = hx.Try(func() { _ = bandersnatch.GetPointFromX(&shared, c.Big) })
+			shared = fe
+			arg = &shared
 		}
 		if perr := hx.Try(func() { pt = bandersnatch.GetPointFromX(arg, c.Big) }); perr != nil {
 			return fmt.Errorf("GetPointFromX(%s): %w", v.Text(16), perr)
@@ -321,4 +322,5 @@ func TestC17(t *testing.T) {
 	s.Rec.Extra("exhaustive", complete)
 	s.Rec.Extra("exhaustive_subdomain", "every 8-bit block value (4 x 256) of the discrete log in the 2^32 subgroup with the other blocks 0 / 0xFF / seed-dependent; all 2^k-th roots of unity k=0..32; 0, 1, p-1 — for both SqrtPrecomp and GetPointFromX")
 	c17Part.Run(s, hx.PerShard(hx.Pick(320000, 4000000)))
+	c17Part.RunConcurrent(s, 8, hx.Pick(1500, 20000))
 }
